@@ -323,6 +323,7 @@ def siteClassTable : List ((String × String) × String) := [
   (("_Identifiers.visitBlockTag", "Named block '%s' not allowed ins"), "named-block-in-def-or-call"),
   (("parse", "(%s) %s (%r)"), "python"),
   (("visit", "(RecursionError) Python code is "), "deep-nesting"),
+  (("FunctionDecl.get_argument_expressions", "(RecursionError) Python code is "), "deep-nesting"),
   (("FindIdentifiers.visit_ImportFrom", "'import *' is not supported, sin"), "import-star"),
   (("PythonFragment.__init__", "Fragment '%s' is not a partial c"), "fragment-not-partial"),
   (("PythonFragment.__init__", "Unsupported control keyword: '%s"), "unsupported-keyword"),
